@@ -232,6 +232,12 @@ func main() {
 		mk("rlimit-nice", "apparmor", "DENIED", "operation", "setrlimit", "class", "rlimits", "profile", "prog", "comm", "prog", "rlimit", "nice", "=value", "30"),
 		mk("rlimit-nice", "apparmor", "DENIED", "operation", "setrlimit", "class", "rlimits", "profile", "prog", "comm", "prog", "rlimit", "nice", "=value", "10"),
 	}
+	// (fourth hunt) two requests on one resource: AppArmor keeps the last `set rlimit` of a resource, so the emitted rules
+	// must allow the larger request whatever order they are written in
+	n++
+	w.Encode(process(fmt.Sprintf("rlimit-two-%d", n),
+		mk("rlimit-two", "apparmor", "DENIED", "operation", "setrlimit", "class", "rlimits", "profile", "prog", "comm", "prog", "rlimit", "nofile", "=value", "65536"),
+		mk("rlimit-two", "apparmor", "DENIED", "operation", "setrlimit", "class", "rlimits", "profile", "prog", "comm", "prog", "rlimit", "nofile", "=value", "8192")))
 	// (third hunt) the name of a disconnected path is logged without its leading slash; with the attach_disconnected flag
 	// (which the record makes aa-log set) the kernel matches it against the policy below the root: /apparmor/.null
 	n++
